@@ -377,6 +377,30 @@ def convergence_test(node: ast.AST) -> Tuple[str, str, ast.AST, ast.AST, bool]:
         quant, inner = 'all', n.func.value
     elif method_call(n, 'any') and not n.args:
         quant, inner = 'any', n.func.value
+    if quant is None and isinstance(n, ast.Call) and (dotted(n.func) or '').split('.')[-1] in ('allclose', 'isclose', 'array_equal', 'array_equiv'):
+        raise Wrong(f'`{text(node)}`: {(dotted(n.func) or "").split(".")[-1]}() is not the stated test (a relative tolerance is added / equality is tested); '
+                    f'expected every |movement| < tol')
+    if quant is None and isinstance(n, ast.Compare) and len(n.ops) == 1:
+        # norm-based tests: only the infinity norm equals the per-variable maximum
+        for side, other in ((n.left, n.comparators[0]), (n.comparators[0], n.left)):
+            if isinstance(side, ast.Call) and (dotted(side.func) or '').endswith('linalg.norm'):
+                ord_ = side.args[1] if len(side.args) > 1 else kwarg(side, 'ord')
+                if ord_ is not None and text(ord_) in ('np.inf', 'numpy.inf', 'inf', "float('inf')", 'math.inf'):
+                    opmap = {ast.Lt: '<', ast.LtE: '<=', ast.Gt: '>', ast.GtE: '>='}
+                    op = opmap.get(type(n.ops[0]))
+                    if op is not None:
+                        if side is n.comparators[0]:
+                            op = {'<': '>', '<=': '>=', '>': '<', '>=': '<='}[op]
+                        q, o = _apply_neg('all', op, neg)
+                        return (q, o, side.args[0], other, True)
+                raise Wrong(f'`{text(node)}`: a vector norm other than the infinity norm is compared with tol: with two or more check variables each may move '
+                            f'by less than tol while the norm does not (expected every |movement| < tol)')
+            # max(abs(d)) OP tol : equivalent for non-empty d, raises ValueError for an empty check list
+            if isinstance(side, ast.Call) and ((dotted(side.func) or '').split('.')[-1] in ('max', 'amax') or method_call(side, 'max')):
+                inner_ = side.args[0] if side.args else (side.func.value if isinstance(side.func, ast.Attribute) else None)
+                if inner_ is not None and abs_arg(inner_) is not None:
+                    raise Wrong(f'`{text(node)}`: the maximum of |movement| raises ValueError when there is no check variable at all (a model without '
+                                f'endogenous variables must solve trivially); expected all(|movement| < tol), which is True for an empty list')
     if quant is None:
         # abs(<reduction of a signed quantity>) OP tol : the absolute value is taken after the reduction
         if isinstance(n, ast.Compare) and len(n.ops) == 1:
@@ -403,6 +427,8 @@ def convergence_test(node: ast.AST) -> Tuple[str, str, ast.AST, ast.AST, bool]:
             q2, op, d, tol, has_abs = convergence_test(elt)
             if q2 != quant:
                 quant = 'any'  # an existential layer anywhere makes the whole test existential
+        except Wrong:
+            raise
         except Unknown:
             op, d, tol, has_abs = elementwise(elt)
         if isinstance(var, ast.Name) and isinstance(d, ast.Name) and d.id == var.id:
